@@ -220,9 +220,10 @@ theorem all_scans_confined_traceql (cfg : Cfg) (c : TraceQL.Ctx) (h : TraceCfg c
   (plan_good cfg c h script s hs).confined
 
 /-- **all_scans_confined_traceql_tags.** The same for the tag-names statement (`PlanTagsV2`). -/
-theorem all_scans_confined_traceql_tags (cfg : Cfg) (c : TraceQL.Ctx) (h : TraceCfg cfg c) (script : TraceQL.Script) (s : Sel)
-    (hs : TraceQL.planTags c script = .ok s) : ∃ n, ∀ f, n ≤ f → confinedDeep cfg (winT c) f s = true :=
-  (planTags_good cfg c h script s hs).confined
+theorem all_scans_confined_traceql_tags (cfg : Cfg) (c : TraceQL.Ctx) (h : TraceCfg cfg c) (kvTable : String)
+    (hkv : cfg.kind kvTable = .index) (script : TraceQL.Script) (s : Sel)
+    (hs : TraceQL.planTags c kvTable script = .ok s) : ∃ n, ∀ f, n ≤ f → confinedDeep cfg (winT c) f s = true :=
+  (planTags_good cfg c h kvTable hkv script s hs).confined
 
 /-- **all_scans_confined_traceql_values.** … and for the tag-values statement (`PlanValuesV2`), both its forms: the
     key/value table scanned by the date range `[From − 30 min, To]`, or the attribute index restricted by the
@@ -267,34 +268,35 @@ theorem all_scans_confined_values (cfg : Cfg) (c : Ctx) (h : LokiCfg cfg c) (key
     confined cfg (winOf c) (LogQL.planValues c key ms) = true :=
   planValues_confined cfg c h key ms
 
-/-- **all_scans_confined_prom.** The statements of the Prometheus remote-read path, for every matcher list and
+/-- **all_scans_confined_prom.** The statements of the Prometheus remote-read path, for every matcher list (as asked of
+    the label index, with any assignment of required / must-stay-clear bits — matchers that accept the empty value) and
     every `SelectHints` (every function name, step and range): the raw-sample statement of
     `TranspileLabelMatchers` (with the instant-vector wrapper and the step filter of `processHints`) scans
     samples with `From ≤ timestamp_ns ≤ To` and the metrics type, the rollup statement of
     `GetLabelMatchersDownsampleRequest` scans metrics_15s with `From < timestamp_ns ≤ To` and the type; the
     label index is scanned with the covering date bound and the type. No slack. -/
 theorem all_scans_confined_prom (cfg : Cfg) (c : Ctx) (h : LokiCfg cfg c) (m15 : String) (hm : cfg.kind m15 = .data)
-    (hh : Prom.Hints) (ms : List Matcher) :
-    confined cfg (winOf c) (Prom.transpileRaw c hh ms) = true ∧
-    confined cfg (winOf c) (Prom.transpileDown c m15 hh ms) = true :=
-  ⟨transpileRaw_confined cfg c h hh ms, transpileDown_confined cfg c h m15 hm hh ms⟩
+    (hh : Prom.Hints) (ms : List Matcher) (req : List Bool) :
+    confined cfg (winOf c) (Prom.transpileRaw c hh ms req) = true ∧
+    confined cfg (winOf c) (Prom.transpileDown c m15 hh ms req) = true :=
+  ⟨transpileRaw_confined cfg c h hh ms req, transpileDown_confined cfg c h m15 hm hh ms req⟩
 
 /-- **prof_selector_confined.** For every selector list (pseudo-labels, key/value selectors, any operators) the
     Pyroscope fingerprint query keeps both date bounds: a fingerprint it returns has an index row whose date lies
     between the UTC date of `From − 30 min` and the UTC date of `To` (byte order of `YYYY-MM-DD`), and both
     comparisons are rendered with the operators `>=` / `<=` (regenerated table of `sql_select`). At most 63
     key/value selectors (the recorded limit of the bit-set scheme, C17). -/
-theorem prof_selector_confined (re : Bytes → Bytes → Bool) (table : String) (fromNs toNs : Int) (sels : List Prof.Selector)
+theorem prof_selector_confined (re gre : Bytes → Bytes → Bool) (table : String) (fromNs toNs : Int) (sels : List Prof.Selector)
     (h63 : (sels.filter (fun s => !Prof.isGlobal s)).length ≤ 63) (tbl : List Prof.PRow) (f : Nat) :
-    ∃ q, Prof.profSelector table fromNs toNs sels = some q ∧
+    ∃ q, Prof.profSelector gre table fromNs toNs sels = some q ∧
       q.fromDate = Time.formatFromDate fromNs ∧ q.toDate = Time.formatDate (secOf toNs) ∧
       Prom.fnOf "Ge" = ">=" ∧ Prom.fnOf "Le" = "<=" ∧
       (f ∈ q.eval re Gen.PromSelect.shiftWidth tbl →
         ∃ r ∈ tbl, r.fp = f ∧ Prom.bytesLe (Time.formatFromDate fromNs) r.date = true ∧
           Prom.bytesLe r.date (Time.formatDate (secOf toNs)) = true) := by
-  obtain ⟨q, hq, hiff⟩ := Prof.plan_correct re _ table (Time.formatFromDate fromNs) (Time.formatDate (Int.fdiv toNs 1000000000)) sels
+  obtain ⟨q, hq, hiff⟩ := Prof.plan_correct re gre _ table (Time.formatFromDate fromNs) (Time.formatDate (Int.fdiv toNs 1000000000)) sels
     (Nat.le_trans h63 (by decide : 63 ≤ Gen.PromSelect.shiftWidth)) h63 tbl f
-  have hd : ∀ (ss : List Prof.Selector) (q' : Prof.PQuery) (a b : Bytes), Prof.plan table a b ss = some q' → q'.fromDate = a ∧ q'.toDate = b := by
+  have hd : ∀ (ss : List Prof.Selector) (q' : Prof.PQuery) (a b : Bytes), Prof.plan gre table a b ss = some q' → q'.fromDate = a ∧ q'.toDate = b := by
     intro ss
     induction ss with
     | nil => intro q' a b h; simp only [Prof.plan, Option.some.injEq] at h; subst h; exact ⟨rfl, rfl⟩
@@ -314,15 +316,15 @@ theorem prof_selector_confined (re : Bytes → Bytes → Bool) (table : String) 
 /-- **prom_index_confined.** The fingerprint sub-query of the Prometheus path (the LogQL stream selector over
     Prometheus matchers), for every matcher list of at most 63 matchers: a fingerprint it returns has an index
     row of the metrics type (or type 0) whose date is not before the UTC date of `From − 30 min`. -/
-theorem prom_index_confined (re : Bytes → Bytes → Bool) (table : String) (fromNs : Int) (tp : Int) (ms : List Prom.Matcher)
+theorem prom_index_confined (re full : Bytes → Bytes → Bool) (table : String) (fromNs : Int) (tp : Int) (ms : List Prom.Matcher)
     (h63 : ms.length ≤ 63) (tbl : List Prom.IdxRow) (f : Nat) :
-    ∃ q, Prom.fingerprintsQuery table (Time.formatFromDate fromNs) tp ms = some q ∧
+    ∃ q, Prom.fingerprintsQuery full table (Time.formatFromDate fromNs) tp ms = some q ∧
       (f ∈ q.eval re Gen.PromSelect.shiftWidth tbl →
         ∃ r ∈ tbl, r.fp = f ∧ Prom.bytesLe (Time.formatFromDate fromNs) r.date = true ∧ (r.type = tp ∨ r.type = 0)) := by
-  obtain ⟨q, hq, hiff⟩ := Prom.fpQuery_correct re _ table (Time.formatFromDate fromNs) tp ms
+  obtain ⟨q, hq, hiff⟩ := Prom.fpQuery_correct re full _ table (Time.formatFromDate fromNs) tp ms
     (Nat.le_trans h63 (by decide : 63 ≤ Gen.PromSelect.shiftWidth)) h63 tbl f
   refine ⟨q, hq, fun hf => ?_⟩
-  obtain ⟨⟨r, hr, hfp, hadm, _⟩, _⟩ := hiff.mp hf
+  obtain ⟨⟨r, hr, hfp, hadm⟩, _⟩ := hiff.mp hf
   simp only [Prom.admissible, Bool.and_eq_true, Bool.or_eq_true, beq_iff_eq] at hadm
   exact ⟨r, hr, hfp, hadm.1, hadm.2⟩
 
@@ -370,9 +372,9 @@ theorem traceql_results_in_window (o : Oracles) (ao : AggOracles) (hp : TraceQL.
     (h : TraceQL.rootSel c script = .ok X) (hok : ∀ p ∈ script, TraceQL.SelOk p.1) (env : Env) (tr : Bytes) :
     (∃ r ∈ evalSelG o ao (d.toDb c) true env X, r.get "trace_id" = .str tr) ↔
       TraceQL.traceMatches o ao c (d.inWindow c) script tr = true := by
-  have hT := (TraceQL.root_traceSel o ao hp c d hr hcons script X h hok).rows [] env
+  have hT := (TraceQL.root_traceSel o ao hp c d (by rw [TraceQL.seen_noFilter d o c hr]; exact hcons) script X h hok).rows [] env
   have hX : X.addCols [] = X := by obtain ⟨ws, d', c', f, j, p, w, g, h', ob, l⟩ := X; simp [Sel.addCols]
-  rw [hX] at hT
+  rw [hX, TraceQL.seen_noFilter d o c hr] at hT
   rw [TraceQL.traceMatches_window]
   exact hT.mem tr
 
